@@ -201,6 +201,16 @@ def _build_meshes(cctx, cfg, rng):
                 m.refine(e)
     _fix_aspect(m)
     out.append((m, "graded to corner x={!r}, t=0 (4 rounds of refine)".format(xc)))
+    # deep isotropic grading towards the same corner (10 rounds: elements of size 2^-10; the entries are compared in a scale-free
+    # metric, so nothing in the code may depend on the absolute size of an element)
+    m = new()
+    for _ in range(10):
+        for e in [e for e in m.leaf_elements if xc in (e.space_interval[0], e.space_interval[1])
+                  and e.time_interval[0] == 0]:
+            if not e.children:
+                m.refine(e)
+    _fix_aspect(m)
+    out.append((m, "deeply graded to corner x={!r}, t=0 (10 rounds of refine)".format(xc)))
     # graded towards the closing seam x = 0 / L in space only
     m = new()
     m.uniform_refine()
@@ -1051,6 +1061,10 @@ def _c07_integral(res, cctx, mctx, tr, te, cls):
     dtr, dte = cctx.desc(tr), cctx.desc(te)
     zone = "inside" if cls.split("/")[0] in ("identical", "nested") else "outside"
     payload = dict(kind="c07i", trial=dtr, test=dte, zone=zone)
+    if zone == "inside" and min(tr.h_x, te.h_x) < INT_MIN_PANEL:
+        # the reference integration cannot keep its nodes more than 1e-5 away from the end points of an element that is itself
+        # shorter than the smallest admissible panel (the documented precondition of the interval rule, part of C07's quantifier)
+        return
 
     def body():
         v = mctx.SLq.bilform(tr, te)
